@@ -297,31 +297,45 @@ def check_range(rec: Rec, case: dict) -> None:
     date_old = formatdate(st_.st_mtime - 1000, usegmt=True)
     date_new = formatdate(st_.st_mtime + 1000, usegmt=True)
     expect_cond = None
-    if cond == "if-range-old":
-        hdrs.append(("If-Range", date_old))
+    atoms = cond.split("+") if cond else []
+    have = {}
+    for atom in atoms:
+        if atom == "if-range-old":
+            hdrs.append(("If-Range", date_old)); have["if-range"] = "stale"
+        elif atom == "if-range-new":
+            hdrs.append(("If-Range", date_new)); have["if-range"] = "fresh"
+        elif atom == "if-none-match-same":
+            hdrs.append(("If-None-Match", etag)); have["inm"] = True
+        elif atom == "if-none-match-other":
+            hdrs.append(("If-None-Match", '"zzz"')); have["inm"] = False
+        elif atom == "if-match-other":
+            hdrs.append(("If-Match", '"zzz"')); have["im"] = False
+        elif atom == "if-match-same":
+            hdrs.append(("If-Match", etag)); have["im"] = True
+        elif atom == "if-modified-since-new":
+            hdrs.append(("If-Modified-Since", date_new)); have["ims"] = "not-modified"
+        elif atom == "if-modified-since-old":
+            hdrs.append(("If-Modified-Since", date_old)); have["ims"] = "modified"
+        elif atom == "if-unmodified-since-old":
+            hdrs.append(("If-Unmodified-Since", date_old)); have["ius"] = "modified"
+        elif atom == "if-unmodified-since-new":
+            hdrs.append(("If-Unmodified-Since", date_new)); have["ius"] = "not-modified"
+        else:
+            raise AssertionError(atom)
+    # RFC 9110 13.2.2 precedence: If-Match, else If-Unmodified-Since; then If-None-Match, else If-Modified-Since; then If-Range
+    if "im" in have:
+        if not have["im"]:
+            expect_cond = "412"
+    elif have.get("ius") == "modified":
+        expect_cond = "412"
+    if expect_cond is None:
+        if "inm" in have:
+            if have["inm"]:
+                expect_cond = "304"
+        elif have.get("ims") == "not-modified":
+            expect_cond = "304"
+    if expect_cond is None and have.get("if-range") == "stale":
         expect_cond = "ignore-range"
-    elif cond == "if-range-new":
-        hdrs.append(("If-Range", date_new))
-    elif cond == "if-none-match-same":
-        hdrs.append(("If-None-Match", etag))
-        expect_cond = "304"
-    elif cond == "if-none-match-other":
-        hdrs.append(("If-None-Match", '"zzz"'))
-    elif cond == "if-match-other":
-        hdrs.append(("If-Match", '"zzz"'))
-        expect_cond = "412"
-    elif cond == "if-match-same":
-        hdrs.append(("If-Match", etag))
-    elif cond == "if-modified-since-new":
-        hdrs.append(("If-Modified-Since", date_new))
-        expect_cond = "304"
-    elif cond == "if-modified-since-old":
-        hdrs.append(("If-Modified-Since", date_old))
-    elif cond == "if-unmodified-since-old":
-        hdrs.append(("If-Unmodified-Since", date_old))
-        expect_cond = "412"
-    elif cond == "if-unmodified-since-new":
-        hdrs.append(("If-Unmodified-Since", date_new))
     method = case.get("method", "GET")
     resps, raw, problem, excs = fetch(f"/static/r{size}.bin".encode(), method=method, headers=hdrs)
     spec = case.get("range")
@@ -422,8 +436,11 @@ def unit_ranges(rec: Rec, size: int, shard: int, nshards: int, conds: list) -> N
     rec.exhaustive = True
 
 
+COMBOS = ["if-none-match-other+if-modified-since-new", "if-none-match-same+if-modified-since-old", "if-match-same+if-unmodified-since-old",
+          "if-match-other+if-none-match-same", "if-unmodified-since-new+if-modified-since-new", "if-match-same+if-none-match-same",
+          "if-none-match-other+if-modified-since-new+if-range-old", "if-unmodified-since-old+if-none-match-same"]
 CONDS = [None, "if-range-old", "if-range-new", "if-none-match-same", "if-none-match-other", "if-match-other", "if-match-same", "if-modified-since-new", "if-modified-since-old",
-         "if-unmodified-since-old", "if-unmodified-since-new"]
+         "if-unmodified-since-old", "if-unmodified-since-new"] + COMBOS
 
 
 def units(tier: str, seed: int) -> list[Unit]:
